@@ -2,6 +2,7 @@ import ZkModel.Basic
 import ZkModel.Hashers
 import ZkModel.Codec
 import ZkModel.TreeDriver
+import ZkModel.Graph.Ops
 /-!
 # Line-protocol driver: `zkmodel (model|spec) < ops` prints one canonical line per op.
 
@@ -120,6 +121,42 @@ def step (st : St) (line : String) : St × String :=
     match parseNats args with
     | some inp => (st, showOutcome ((e.poseidon inp).map fr))
     | none => (st, "bad-op")
+  | ["op", name, a, b] =>
+    match Graph.opOfString name, parseHexNat a, parseHexNat b with
+    | some op, some a, some b => (st, match e.mode with
+      | .model => showOutcome ((Graph.evalFr op a b).map fr)
+      | .spec => fr (Graph.Circom.sem op a b))
+    | _, _, _ => (st, "bad-op")
+  | ["opu", name, a, b] =>
+    match Graph.opOfString name, parseHexNat a, parseHexNat b with
+    | some op, some a, some b => (st, match e.mode with
+      | .model => showOutcome ((Graph.evalU op a b).map fr)
+      | .spec => fr (Graph.Circom.sem op a b))
+    | _, _, _ => (st, "bad-op")
+  | ["uno", name, a] =>
+    match (if name == "Neg" then some Graph.UnoOp.Neg else if name == "Id" then some Graph.UnoOp.Id else none), parseHexNat a with
+    | some op, some a => (st, match e.mode with
+      | .model => showOutcome ((Graph.evalFrUno op a).map fr)
+      | .spec => fr (Graph.Circom.semUno op a))
+    | _, _ => (st, "bad-op")
+  | ["unou", name, a] =>
+    match (if name == "Neg" then some Graph.UnoOp.Neg else if name == "Id" then some Graph.UnoOp.Id else none), parseHexNat a with
+    | some op, some a => (st, match e.mode with
+      | .model => showOutcome ((Graph.evalUUno op a).map fr)
+      | .spec => fr (Graph.Circom.semUno op a))
+    | _, _ => (st, "bad-op")
+  | ["tres", a, b, c] =>
+    match parseHexNat a, parseHexNat b, parseHexNat c with
+    | some a, some b, some c => (st, match e.mode with
+      | .model => showOutcome ((Graph.evalFrTres .TernCond a b c).map fr)
+      | .spec => fr (Graph.Circom.semTres .TernCond a b c))
+    | _, _, _ => (st, "bad-op")
+  | ["tresu", a, b, c] =>
+    match parseHexNat a, parseHexNat b, parseHexNat c with
+    | some a, some b, some c => (st, match e.mode with
+      | .model => showOutcome ((Graph.evalUTres .TernCond a b c).map fr)
+      | .spec => fr (Graph.Circom.semTres .TernCond a b c))
+    | _, _, _ => (st, "bad-op")
   | "uposeidon" :: t :: rf :: rp :: sk :: args =>
     match t.toNat?, rf.toNat?, rp.toNat?, sk.toNat?, parseNats args with
     | some t, some rf, some rp, some sk, some inp =>
